@@ -119,7 +119,7 @@ def kinds(evs):
     return {e["m"]["kind"] for e in evs if e["ev"] == "emit"}
 
 
-def make_P(ctx, cfg, universes, nontrivial, rule, quick_beh=150, thorough_beh=1500, n_random=(100, 1500),
+def make_P(ctx, cfg, universes, nontrivial, rule, quick_beh=150, thorough_beh=3000, n_random=(100, 3000),
            design=True, env=None, gen="cover", assumptions=()):
     cat = export_catalogue(ctx)
     denv = {"VERIF_UNIVERSES": ",".join(universes)}
